@@ -280,7 +280,7 @@ func selectScript(cf *Conf, packets []*SPacket) []simnet.Step {
 func init() {
 	Register(&Prop{
 		ID: "C03", Engine: "A", Quick: 6000, Thorough: 300000, Level: "exploration",
-		Rule: "each run = handshake + 1..2 queries, each answered by a generated packet script (Data/Totals of a drawn schema incl. zero-row header blocks, Progress, Profile, ProfileEvents, Log, TableColumns, then EndOfStream or an exception chain) with each callback independently present or absent, typed or Auto targets, drawn revisions and compression, delivery segmentation and goroutine schedule; no faults; oracle = expected callback trace and return value computed from the script by a model; distinct = schedule digests; non-trivial = at least one context switch and one result or telemetry event",
+		Rule: "each run = handshake + 1..2 queries, each answered by a generated packet script (Data/Totals of a drawn schema incl. zero-row header blocks, Progress, Profile, ProfileEvents, Log, TableColumns, then EndOfStream or an exception chain) with each callback independently present or absent, typed or Auto targets or no result bound at all (header blocks only), drawn revisions and compression, delivery segmentation and goroutine schedule; no faults; oracle = expected callback trace and return value computed from the script by a model; distinct = schedule digests; non-trivial = at least one context switch and one result or telemetry event",
 		Run:  runC03,
 	})
 }
